@@ -330,6 +330,14 @@ func RegexpQuery(text string, content, file bool) (Q, error) {
 
 	r = OptimizeRegexp(r, regexpFlags)
 
+	// The simplified expression is what gets compiled at search time
+	// (Simplify expands a counted repetition such as x{0,500} into nested
+	// groups, which can exceed the nesting limit of the compiler): reject it
+	// now instead of panicking in MustCompile later.
+	if _, err := regexp.Compile(r.String()); err != nil {
+		return nil, err
+	}
+
 	if r.Op == syntax.OpLiteral {
 		expr = &Substring{
 			Pattern:  string(r.Rune),
